@@ -135,6 +135,15 @@ def run(ctx):
                     f.write('\n'.join(files[i][0] for i in batch) + '\n')
                 args += ['-l', lf, '--ldir', qdir]
                 labels = [dict(kind='path', v=cps(files[i][0])) for i in batch]
+            elif bi % 8 == 6:
+                # the signature file is produced by the command line itself (`signatures create --db-params`): ids = file labels
+                sf = os.path.join(tmp, f'b{bi}.gs')
+                rc0, _, se0 = cli.run_cli(['-d', dbdir, 'signatures', 'create', '--db-params', '--no-progress', '-o', sf] + [files[i][1] for i in batch], cwd=tmp)
+                if rc0 != 0:
+                    raise tlc.MachineryError(f'signatures create failed while preparing a batch: {se0[-300:]}')
+                args += ['-s', sf]
+                labels = [dict(kind='path', v=cps(files[i][1])) for i in batch]
+                channel = 'sigfile-from-cli'
             else:
                 sf = os.path.join(tmp, f'b{bi}.gs')
                 dump_signatures(sf, AnnotatedSignatures(SignatureArray([W.real_signature(w['kspec'], pool[i]['contigs']) for i in batch], ks), [sig_ids[i] for i in batch], SignaturesMeta()))
@@ -190,7 +199,7 @@ def run(ctx):
         ctx.add_samples([dict(family='query-batches', meta={k: v for k, v in metas[9].items() if k not in ('labels', 'out')}, rows=recs[9]['rows'][:1])], limit=1)
         ctx.rule_parts.append('[query-batches] a synthetic database (9 genomes, signature file order != genome order, identical reference genomes, '
                               'threshold-less and unreportable taxa, names with commas/quotes/newlines) and 7 query genomes (one under two names): every '
-                              'single genome, ordered pairs and triples, the full batch in both orders, repeated inputs, different genomes with colliding labels x channel {positional, list file + '
+                              'single genome, ordered pairs and triples, the full batch in both orders, repeated inputs, different genomes with colliding labels x channel {positional, list file + base dir, signature file written by `gambit signatures create`, list file + '
                               'base dir, pre-computed signature file} x gzip (single- and multi-member) / FASTA extensions x -c {1,2,5,16} x progress on/off x format {csv, json, '
                               'archive} through the real command line, plus query_parse with chunk sizes {1,2,3,None,1000} and thread/process pools; '
                               'every row is recomputed by TLC from the sequences of that genome alone; non-trivial = batch of >= 2')
